@@ -15,26 +15,52 @@ def SELECT(name):
 
 def lemmas():
     """frame lemma (syntactic, by AST scan): the only stores to an attribute
-    `unknowns` in the package are the two resets (Parser.__init__, parse)
-    and the two guarded appends (expand_macro, begin_environment)"""
+    `unknowns` in the package -- assignments, augmented assignments,
+    deletions and slice/element stores rooted in it, mutating method calls
+    on it -- are the two resets (Parser.__init__, parse) and the two guarded
+    appends (expand_macro, begin_environment).  Not covered: mutation
+    through an alias of the list (listed as assumption)."""
     import ast
     from pyvc import front
     repo = front.repo()
     sites = []
+    def root_attr(t):
+        # the attribute `unknowns` a store / delete target is rooted in:
+        # x.unknowns, x.unknowns[i], x.unknowns[i:j], x.unknowns[i].y ...
+        while isinstance(t, (ast.Subscript, ast.Attribute, ast.Starred)):
+            if isinstance(t, ast.Attribute) and t.attr == 'unknowns':
+                return t
+            t = t.value
+        return None
+
+    def targets(t):
+        if isinstance(t, (ast.Tuple, ast.List)):
+            for e in t.elts:
+                yield from targets(e)
+        else:
+            yield t
+
     for q, fi in repo.funcs.items():
         for n in ast.walk(fi.node):
-            if isinstance(n, (ast.Assign, ast.AugAssign)):
-                ts = n.targets if isinstance(n, ast.Assign) else [n.target]
-                for t in ts:
-                    if isinstance(t, ast.Attribute) and t.attr == 'unknowns':
-                        sites.append((q, 'assign', isinstance(
-                            getattr(n, 'value', None), ast.List) and
-                            not n.value.elts))
+            if isinstance(n, (ast.Assign, ast.AugAssign, ast.AnnAssign,
+                              ast.Delete, ast.For, ast.NamedExpr)):
+                ts = n.targets if isinstance(n, (ast.Assign, ast.Delete)) \
+                    else [n.target]
+                for t0 in ts:
+                    for t in targets(t0):
+                        a = root_attr(t)
+                        if a is None:
+                            continue
+                        plain = a is t and isinstance(n, ast.Assign)
+                        sites.append((q, 'assign' if plain else
+                                      type(n).__name__.lower() + '-store',
+                                      plain and isinstance(
+                            n.value, ast.List) and not n.value.elts))
             elif isinstance(n, ast.Call) and isinstance(n.func,
                                                         ast.Attribute) and \
                     isinstance(n.func.value, ast.Attribute) and \
                     n.func.value.attr == 'unknowns' and \
-                    n.func.attr != 'copy':
+                    n.func.attr not in ('copy', 'index', 'count'):
                 sites.append((q, n.func.attr, True))
     allowed = {('yalafi.parser.Parser.__init__', 'assign'),
                ('yalafi.parser.Parser.parse', 'assign'),
@@ -43,15 +69,16 @@ def lemmas():
     for q, kind, ok in sites:
         yield ('frame:unknowns-store:%s:%s' % (q, kind),
                (q, kind) in allowed and ok,
-               'store to .unknowns in %s (%s)' % (q, kind))
+               'store to .unknowns in %s (%s)' % (q, kind), False)
     yield ('frame:unknowns-store-sites-found', len(sites) >= 4,
-           '%d sites' % len(sites))
+           '%d sites' % len(sites), False)
 
 
 TRUSTED = cm.TRUSTED_CORE
 ASSUMPTIONS = cm.ASSUME_CORE + [
     'NOT decided: completeness (that every textual use of an undeclared name reaches expand_macro / begin_environment), order of '
     'first use, and that names inside comments / skipped regions are not listed (these follow from C03-type lemmas only)',
+    'frame lemma of `unknowns` is syntactic: mutation through an alias (u = self.unknowns; u.append(..)) is not seen',
     'membership `x in unknowns` is a ghost boolean per list state; duplicate-freeness follows from "append only on a path where '
     'that boolean is false"',
 ]
